@@ -2,7 +2,7 @@ PROPERTY = "C11"
 LEVEL = "proof"
 LEAN_MODULES = ["CifModel.Props.C11", "CifModel.Props.ReviewC11"]
 REQUIRED = ["CifModel.C11_table", "CifModel.C11_tree_link", "CifModel.C11_table_tree", "CifModel.C11_version", "CifModel.C11_wrong_encoding",
-            "CifModel.C11_bom_only_first", "CifModel.C11_same_version_any_signature",
+            "CifModel.C11_bom_only_first", "CifModel.C11_bom_token_start", "CifModel.C11_bom_between_tokens", "CifModel.C11_same_version_any_signature",
             "CifModel.C11_terminators", "CifModel.C11_cex_named_default_ignored", "CifModel.C11_cex_magic_not_token",
             "CifModel.C11_cex_terminator_forgotten"]
 GEN = ["ParseConsts"]
@@ -40,15 +40,22 @@ PARTIAL = [
     "sequences DECODE to the same code units is ICU's converter (ucnv_*), which is not modelled - observed by family `dialect` on the "
     "property's table of encodings; given equal units, equal content is the determinism of the parser model (Model.Parser.parse is a "
     "function of dialect, options and units)",
-    "'a byte-order mark is accepted only as the very first character': proved about the tied scanner / parser models through the C12 "
-    "scanner theorems (C11_bom_only_first: not refused as initial character; one CIF_DISALLOWED_CHAR wherever a scanner function meets it "
-    "inside a token); a U+FEFF BETWEEN tokens (in whitespace position) is covered by the `dialect` / `lex` correspondence only",
+    "'a byte-order mark is accepted only as the very first character': proved about the tied scanner / parser models (Model/Lexer = next_token and "
+    "the scan_* functions, family `lex`; Model/Parser.disallowedInitial / afterFirst = get_first_char / cif_parse_internal, family `parse`): "
+    "C11_bom_only_first (not refused as initial character; reported for CIF 1.1; one CIF_DISALLOWED_CHAR wherever a scanner function meets it "
+    "INSIDE a token), C11_bom_token_start (U+FEFF where a token may begin, every callback policy, both dialects, with or without whitespace "
+    "in front: scan_ws does not take it, next_token's default branch starts a whitespace-delimited value with it, SCAN_UCHAR reports "
+    "CIF_DISALLOWED_CHAR - once in CIF 2.0 mode, twice in CIF 1.1 mode - and keeps the character) and C11_bom_between_tokens (any position in "
+    "the input, any whitespace / comment run in front, any value characters behind: accept-all gives the value token `U+FEFF...` and exactly "
+    "that one report (CIF 1.1: two), the die handler ends with CIF_DISALLOWED_CHAR).  What the theorems do not say: that a U+FEFF in front of a "
+    "token with a case of its own (`_name`, quote, bracket) turns THAT token into part of a bare value - it follows from C11_bom_token_start's "
+    "continuation (scan_unquoted goes on behind the mark) but is not spelled out per token type",
     "the abstraction of the input to a `Header` (what the raw-byte tests and the decoder show of it) is tied by family `dialect` "
     "(exhaustive table) - not proved; an input that is empty after its optional BOM (`noText`) is outside the theorems: no version is resolved",
 ]
 LEVEL_TEXT = ("Proof: C11_table covers every prefer_cif2 : Int (reduced to its four documented ranges by omega), every consistent "
               "input header, both values of force_default_encoding and every default-encoding situation; C11_version, "
-              "C11_wrong_encoding, C11_bom_only_first, C11_same_version_any_signature cover the remaining clauses. The tie to the "
+              "C11_wrong_encoding, C11_bom_only_first, C11_bom_token_start / C11_bom_between_tokens (scanner level: U+FEFF at a token boundary), C11_same_version_any_signature cover the remaining clauses. The tie to the "
               "code is exhaustive over the 30 000-cell table of the property plus boundary inputs, through the real cif_parse.")
 LEVEL_NOTE = ("Trusted: Lean kernel; the hand-written cascade model (exhaustively corresponded on the property's table); "
               "translate_consts.py; the two independent transcriptions of the documentation; ICU is observed, not modelled. "
